@@ -7,7 +7,8 @@ LEVEL = "fault_enumeration"
 RULE = ("for each base scenario with fault-free length T the objective is made to raise on its k-th evaluation for EVERY k in 2..T (T <= 40 quick / 150 thorough) and "
         "every exception type in {RuntimeError, ValueError, ZeroDivisionError, MemoryError, KeyboardInterrupt, SystemExit, GeneratorExit, private BaseException}; "
         "Solve must return, report exactly k-1 trials with the best of the k-1 logged values, and the search information must pass the C06 audit without the "
-        "failed point. Faults are also injected after pre-batched iterations. Non-trivial: every faulted run; distinct = (scenario, k, exception type).")
+        "failed point. Two further exception types (rotating over 18, incl. IndexError/KeyError/StopIteration/RecursionError and user subclasses) are injected at every k; a fifth of the "
+        "faults are persistent (every later call fails too); long base runs (500..3000 trials) get faults at sampled k including the last. Faults are also injected after pre-batched iterations. Non-trivial: every faulted run; distinct = (scenario, k, exception type).")
 ASSUMPTIONS = ["refineSolution=False (with refinement 'reflects exactly the k-1 completed trials' is not well defined)",
                "the reported accuracy after a fault is not checked (the statement lists count, point and value only)"]
 CHUNK = 1
@@ -16,6 +17,21 @@ CHUNK = 1
 class PrivateBase(BaseException):
     pass
 
+
+class UserError(Exception):
+    pass
+
+
+class UserIndexError(IndexError):
+    pass
+
+
+# further exception types an objective can plausibly raise; two of them (rotating) are injected at every k in addition to the eight above
+EXTRA = {"IndexError": IndexError, "KeyError": KeyError, "LookupError": LookupError, "AttributeError": AttributeError, "TypeError": TypeError,
+         "OSError": OSError, "StopIteration": StopIteration, "AssertionError": AssertionError, "RecursionError": RecursionError,
+         "FloatingPointError": FloatingPointError, "OverflowError": OverflowError, "ArithmeticError": ArithmeticError,
+         "NotImplementedError": NotImplementedError, "TimeoutError": TimeoutError, "UserError": UserError, "UserIndexError": UserIndexError,
+         "Exception": Exception, "BaseException": BaseException}
 
 EXC = {"RuntimeError": RuntimeError, "ValueError": ValueError, "ZeroDivisionError": ZeroDivisionError, "MemoryError": MemoryError,
        "KeyboardInterrupt": KeyboardInterrupt, "SystemExit": SystemExit, "GeneratorExit": GeneratorExit, "PrivateBase": PrivateBase}
@@ -32,6 +48,14 @@ def cases(tier, seed):
         if i % 3 != 1:
             scn["eps"] = max(scenario.eps_floor(scn["N"], scn["m"]), 1e-4)      # run to the budget
         out.append({"scn": scn, "i": i, "seed": seed})
+    # long runs: the containment must not depend on how much search information has accumulated; k is sampled
+    nl = 16 if tier == "quick" else 96
+    for i in range(nl):
+        rng = scenario.rng_for(seed, "C16L", i)
+        scn = scenario.gen_scenario(rng, refine=False, max_iters=3000, fams=["cones", "sines", "wells", "linear", "noise", "rcos", "needle"])
+        scn["iters"] = int(rng.integers(500, 1500 if tier == "quick" else 3000))
+        scn["eps"] = scenario.eps_floor(scn["N"], scn["m"]) * 1.5
+        out.append({"scn": scn, "i": 100000 + i, "seed": seed, "long": True})
     return out
 
 
@@ -48,8 +72,24 @@ def run_case(c):
     obs["max_T"] = T
     keys = []
     rng = scenario.rng_for(c["seed"], "C16run", c["i"])
-    for k in range(2, T + 1):
-        for name, exc in EXC.items():
+    extra_names = sorted(EXTRA)
+    if c.get("long"):
+        ks = sorted({2, 3, T, T - 1} | {int(v) for v in np.exp(rng.uniform(np.log(4), np.log(max(T, 5)), 6))} |
+                    {int(v) for v in rng.integers(max(2, T // 2), T + 1, 4)})
+        ks = [k for k in ks if 2 <= k <= T]
+        obs["long_base_scenarios"] = 1
+        obs["max_T_long"] = T
+    else:
+        ks = list(range(2, T + 1))
+    for k in ks:
+        if c.get("long"):
+            names = ["RuntimeError", "KeyboardInterrupt", extra_names[(k + c["i"]) % len(extra_names)]]
+            obs["max_k_long"] = max(obs.get("max_k_long", 0), k)
+        else:
+            names = list(EXC) + [extra_names[(2 * k + c["i"]) % len(extra_names)], extra_names[(2 * k + 1 + c["i"]) % len(extra_names)]]
+        for name in names:
+            exc = EXC.get(name) or EXTRA[name]
+            persistent = bool(rng.random() < 0.2)
             s = dict(scn)
             # some faults happen in a Solve that follows pre-batched iterations
             pre = 0
@@ -57,7 +97,9 @@ def run_case(c):
                 pre = int(rng.integers(1, k - 1))
                 s["pattern"] = [["iter", pre], ["solve"]]
                 obs["faults_after_prebatch"] = obs.get("faults_after_prebatch", 0) + 1
-            prob, _ = record.make_problem(s, cap=scn["iters"] + pre + 8, fault=(k, exc))
+            prob, _ = record.make_problem(s, cap=scn["iters"] + pre + 8, fault=(k, exc, persistent))
+            if persistent:
+                obs["persistent_faults"] = obs.get("persistent_faults", 0) + 1
             try:
                 t = record.run_solver(s, listener=False, problem=prob)
             except BaseException as e:
@@ -67,7 +109,11 @@ def run_case(c):
                                  "msg": "the injected exception escaped Solve instead of being contained"})
                 continue
             obs["faulted_runs"] = obs.get("faulted_runs", 0) + 1
-            obs["exc_" + name] = obs.get("exc_" + name, 0) + 1
+            if name in EXC:
+                obs["exc_" + name] = obs.get("exc_" + name, 0) + 1
+            else:
+                obs["extra_exception_runs"] = obs.get("extra_exception_runs", 0) + 1
+                obs["extra_types"] = sorted(set(obs.get("extra_types", [])) | {name})
             keys.append("%d|%d|%s" % (c["i"], k, name))
             if not t.solutions:
                 viol.append({"mech": "solve-did-not-return", "k": k, "exc": name})
@@ -112,4 +158,8 @@ def finalize(obs, tier, stats):
     for n in EXC:
         if not obs.get("exc_" + n):
             return "exception type %s never injected" % n, {}
-    return None, {"fault_space": "every k in 2..T x %d exception types per base scenario" % len(EXC)}
+    if len(obs.get("extra_types", [])) < len(EXTRA):
+        return "extended exception types not all injected: %s" % obs.get("extra_types"), {}
+    if not obs.get("long_base_scenarios") or obs.get("max_k_long", 0) < 400:
+        return "no fault injected late in a long run (max k %s)" % obs.get("max_k_long"), {}
+    return None, {"fault_space": "every k in 2..T x %d exception types (+2 rotating of %d further types) per base scenario; long runs: sampled k" % (len(EXC), len(EXTRA))}
